@@ -14,7 +14,9 @@ RULE = ("DAG-heavy generated expressions (let-lists with shared objects, repeate
         "str.  Oracle = independent mpmath forward-mode AD per variable (cross-checked against a reference reverse "
         "sweep and central differences); exact on the polynomial fragment.  Non-trivial = gradient decided AND (some "
         "variable occurs >= 2 times, or a shared non-leaf node, or a product of >= 3 factors containing an exact zero "
-        "factor); distinct by SHA-1 of (canonical model, point).")
+        "factor); distinct by SHA-1 of (canonical model, point).  Part 'sequence': one expression object (and one late "
+        "Differential on it) asked for its gradient at several points in a row, plain evaluations and repeated points in "
+        "between; non-trivial there = at least two answered gradients.")
 ASSUMPTIONS = c03.ASSUMPTIONS + ["reverse multipliers (d root / d node) restricted to [1e-150,1e150] in magnitude"]
 
 ROUTES = ["LocatedDifferential.component", "Differential.at.component/late"]
@@ -150,13 +152,84 @@ def make_exact(stats):
     return test
 
 
+def check_sequence(stats, m, envs, steps, query, sub="sequence"):
+    """ONE expression object (and one late Differential object on it) asked for its gradient at several points in a
+    row - LocatedDifferential(e, p), Differential(e).at(p), plain evaluations in between, repeated points: every
+    gradient must be the true one for its own point."""
+    m = safe(m)
+    stats.case()
+    e = build(m)
+    d = lib.Differential(e)
+    trail = []
+    answered = 0
+    for k, (kind, i) in enumerate(steps):
+        env = envs[i]
+        P = lib.Point(**env)
+        if kind == "eval":
+            trail.append(f"e.at({M.point_text(env)}) -> {lib.call(lambda: e.at(P))!r}")
+            continue
+        r, ctx = DV.value_context(m, env)
+        route = "LocatedDifferential.component" if kind == "located" else "Differential.at.component/late"
+        obj = lib.call((lambda: lib.LocatedDifferential(e, P)) if kind == "located" else (lambda: d.at(P)))
+        trail.append(f"{route.split('.')[0]} at {M.point_text(env)} -> {obj.kind}")
+        if r.st != RE.DEFINED:
+            continue
+        oracles = {}
+        for v in query:
+            o = DV.oracle(m, env, v, ctx=ctx, r=r, reverse=True)
+            if o.st != "ok":
+                oracles = None
+                break
+            oracles[v] = o
+        if oracles is None or obj.kind == lib.OVF:
+            continue
+        case = make_case(sub, m, None, query=list(query), points=[M.point_to_json(x) for x in envs], steps=[list(x) for x in steps[:k + 1]])
+        note = f" on one object after [{'; '.join(trail[:-1])[-600:]}]"
+        if obj.kind != lib.OBJ:
+            raise violation(ID, sub, f"no-object:{obj.kind}:{route}", case,
+                            f"{M.text(m)[:300]} at {M.point_text(env)}: defined (value {r.v}) but {route} gave {obj!r}{note}")
+        for v in query:
+            out = lib.call(lambda: obj.value.component(v))
+            c03.compare(stats, oracles[v], out, m, env, v, route, case, sub, prop=ID, note=note)
+        answered += 1
+        stats.count("sequence-gradients")
+    if answered >= 2:
+        stats.nontrivial_case(M.digest(M.canon(m), [sorted(x.items()) for x in envs], [list(x) for x in steps]),
+                              {"expr": M.text(m)[:300], "sequence": trail[:6]})
+
+
+def make_sequence(stats):
+    @given(st.data())
+    def test(data):
+        names = data.draw(S.name_lists(1, 3))
+        w = data.draw(st.integers(0, 2))
+        if w == 0:
+            m = data.draw(S.dags(names, max_defs=4, depth=2, tags=S.POLY_TAGS))
+            envs = [data.draw(S.exact_points(names)) for _ in range(data.draw(st.integers(2, 3)))]
+        elif w == 1:
+            m = data.draw(S.dags(names, max_defs=4, depth=2, const_bias=2))
+            envs = [data.draw(S.points(names, extra=False)) for _ in range(data.draw(st.integers(2, 3)))]
+        else:
+            m = data.draw(S.expressions(names, depth=3))
+            envs = [data.draw(S.points(names, extra=False)) for _ in range(data.draw(st.integers(2, 3)))]
+        steps = data.draw(st.lists(st.tuples(st.sampled_from(["located", "located", "differential", "eval"]),
+                                             st.integers(0, len(envs) - 1)), min_size=2, max_size=6))
+        check_sequence(stats, m, envs, [tuple(x) for x in steps], names + ["absent"])
+    return test
+
+
 def parts(tier):
     n = 15000 if tier == "quick" else 300000
-    return [hyp_part("dag", make_dag, int(n * 0.4)), hyp_part("zero-factor", make_zero, int(n * 0.2)),
-            hyp_part("general", make_general, int(n * 0.2)), hyp_part("exact", make_exact, int(n * 0.2))]
+    return [hyp_part("dag", make_dag, int(n * 0.35)), hyp_part("zero-factor", make_zero, int(n * 0.2)),
+            hyp_part("general", make_general, int(n * 0.15)), hyp_part("exact", make_exact, int(n * 0.15)),
+            hyp_part("sequence", make_sequence, int(n * 0.15))]
 
 
 def replay(case):
+    if case.get("sub") == "sequence":
+        check_sequence(Stats(), case_model(case), [M.point_from_json(x) for x in case["points"]],
+                       [tuple(x) for x in case["steps"]], case["query"])
+        return
     check(Stats(), case_model(case), case_point(case), case["query"], case.get("as_object", False), selfcheck=True,
           sub=case.get("sub", "reverse"))
 
